@@ -196,6 +196,43 @@ def draw_payload(rng):
     return bytes(rng.choice(b"0123456789().*:-kWh\r\n ") for _ in range(rng.randint(1, 60))), {"k": "ascii_junk"}
 
 
+_P1_OBIS = None
+
+
+def obis_codes(entry):
+    """OBIS codes (six values A..F) carried by a corpus entry: '09 06 A B C D E F' octet strings in binary
+    messages, 'A-B:C.D.E' addresses in P1 blocks (F = 255)."""
+    import re
+
+    data = entry["data"]
+    if entry["form"] == "p1":
+        return [tuple(int(g) for g in m.groups()) + (255,) for m in re.finditer(rb"(\d+)-(\d+):(\d+)\.(\d+)\.(\d+)", data)]
+    return [tuple(data[i + 2 : i + 8]) for i in range(len(data) - 7) if data[i] == 0x09 and data[i + 1] == 0x06 and data[i + 7] == 0xFF]
+
+
+def obis_cross(rng, donor, entry):
+    """`entry`'s message with one of its OBIS codes replaced by a code the `donor` message carries (codes wander
+    between meters and forms: what one decoder has seen, another is offered). None when either has no codes."""
+    import re
+
+    codes = obis_codes(donor)
+    if not codes:
+        return None
+    code = rng.choice(codes)
+    data = entry["data"]
+    if entry["form"] == "p1":
+        spans = [m.span() for m in re.finditer(rb"\d+-\d+:\d+\.\d+\.\d+", data)]
+        if not spans:
+            return None
+        a, b = rng.choice(spans)
+        return data[:a] + ("%d-%d:%d.%d.%d" % code[:5]).encode() + data[b:]
+    spots = [i + 2 for i in range(len(data) - 7) if data[i] == 0x09 and data[i + 1] == 0x06 and data[i + 7] == 0xFF]
+    if not spots:
+        return None
+    pos = rng.choice(spots)
+    return data[:pos] + bytes(v & 0xFF for v in code) + data[pos + 6 :]
+
+
 def weird_ident(rng) -> bytes:
     """Identification lines (without line end) from well-formed to damaged: long ids, control
     characters that str.strip() keeps or removes, escapes, lower-case flag ids."""
